@@ -142,6 +142,17 @@ CHECKS += [
      "note": "PARTIAL: goroutines, sync.Cond and the real semaphore (C42) are observed only. SyncHandler and MaxWorkers = 0 run on the connection goroutine and are outside the worker bound. No axioms."},
 ]
 
+CHECKS += [
+    {"id": "C19",
+     "technique": "Coq proof over executable models of the tlast lexer and the TL1 recursive-descent parser (control flow with every Go panic site explicit) + T-const (token/character constants) + correspondence with internal/tlast through an in-package overlay harness + oracle on the real parser",
+     "text": "Proved for all byte strings and all option settings: tokenizer total (fuel |s|+1 never exhausted), tokens recombine to the input, >= 1 byte per step, every token position is the true line/column/offset, the front end hands the parser a list ending in a single eof, the transcribed parser terminates within fuel, never reaches a panic site (iterator out of range, eof popped, log.Panicf sites, slices), and every error position lies in [0,|s|] with consolePrint slicing nothing out of range. ~37k inputs per run (every byte, pairs/triples over the lexer alphabet, token soups, grammar-generated and mutated declarations, repository files truncated at every offset/token, CRLF, UTF-8 boundaries, nesting to 5000) compared token by token and error by error; oracle: recover(), error offsets, ConsolePrint/Error().",
+     "note": "AST construction and Combinator.crc32() are outside the parser model (covered by the oracle on the real code only). Absence of Go panics outside the modelled sites is observed, not proved. No axioms."},
+    {"id": "C20",
+     "technique": "Coq proof over executable models of the tlast lexer (TL2 options) and the TL2 combinator parser (OptionalState bookkeeping, named results, deferred resets; every panic site explicit) + T-const + correspondence through an in-package overlay harness + oracle on the real parser",
+     "text": "Same statements as C19 for LexerLanguage = TL2 and ParseTL2File: tokenizer total with exact positions and recombination; parser terminates within fuel, reaches no panic site, every error in range. ~36k inputs per run compared token by token and error by error; oracle: recover(), error offsets, ConsolePrint/Error().",
+     "note": "AST construction is outside the parser model (oracle only). No axioms."},
+]
+
 _claimed = {c["id"] for c in CHECKS}
 _reasons = {
     "C32": "PHP serializers: no PHP/KPHP interpreter exists in the sandbox and nothing can be installed, so generated PHP cannot be executed; neither a correspondence check nor a failing-input search can exist (DESIGN.md section 8)",
